@@ -798,6 +798,8 @@ func (it *Interp) callHost(name string, args []Value) Value {
 		return args[0]
 	case "hf_err":
 		rtErr("host-error", "host function failed")
+	case "hf_pack":
+		return it.Pol.NewArr(append([]Value{}, args...))
 	case "hf_args":
 		if len(args) != 2 {
 			rtErr("wrong-args", "wrong number of arguments in call to 'user-function:hf_args'")
